@@ -303,7 +303,9 @@ int splinetable_grideval(struct splinetable* table, const double* const* coords,
 //This exists to give C callers a way to call operator delete, since grideval
 //allocates with operator new which _might_ not be the same as malloc.
 void ndsparse_destroy(struct ndsparse* nd){
-	delete nd;
+	//grideval hands out a photospline::ndsparse; deleting it through the C base
+	//type would skip its destructor and leak the arrays it owns
+	delete static_cast<photospline::ndsparse*>(nd);
 }
 #endif //PHOTOSPLINE_INCLUDES_SPGLAM
 	
